@@ -19,11 +19,11 @@ import (
 type cliScenario struct {
 	Input    string `json:"input"`    // setup path relative to the module root (may not exist)
 	Spelling string `json:"spelling"` // rel-root | abs | dot-rel | pkg-dir | gofile-only | gofile-and-arg | gofile-pkg-dir
-	OutKind  string `json:"out_kind"` // "" (default) | same-dir | cwd | nested-dir | missing-dir | is-dir | abs
+	OutKind  string `json:"out_kind"` // "" (default) | same-dir | cwd | nested-dir | missing-dir | is-dir | abs | log-ext | is-input
 	Dry      bool   `json:"dry"`
 	Print    bool   `json:"print"`
 	Log      bool   `json:"log"`
-	Pre      string `json:"pre"` // absent | other | identical | stale-broken
+	Pre      string `json:"pre"` // absent | other | identical | stale-broken | longer
 }
 
 func (s cliScenario) flags() string {
@@ -109,6 +109,13 @@ func execScenario(env *hx.Env, files hx.Files, sc cliScenario, identical string)
 	case "is-dir":
 		_ = os.MkdirAll(filepath.Join(pkgDir, "adir.go"), 0o755)
 		outArg = filepath.Join(filepath.Dir(spelled), "adir.go")
+	case "log-ext":
+		// an output whose extension is ".log": "<output minus extension>.log" is the output itself, so the log
+		// has to go somewhere else (LogAbs stays empty: any other *.log file next to the output is accepted)
+		outArg = filepath.Join(filepath.Dir(spelled), "other_name.log")
+	case "is-input":
+		// the setup file itself named as the output: it must never be modified, so the run cannot succeed
+		outArg = spelled
 	default:
 		return nil, fmt.Errorf("bad out kind %q", sc.OutKind)
 	}
@@ -127,7 +134,10 @@ func execScenario(env *hx.Env, files hx.Files, sc cliScenario, identical string)
 	} else {
 		r.LogAbs = filepath.Join(r.Cwd, logSpelled)
 	}
-	if sc.OutKind != "is-dir" && sc.OutKind != "missing-dir" {
+	if r.LogAbs == r.OutAbs {
+		r.LogAbs = ""
+	}
+	if sc.OutKind != "is-dir" && sc.OutKind != "missing-dir" && sc.OutKind != "is-input" {
 		switch sc.Pre {
 		case "other":
 			_ = os.WriteFile(r.OutAbs, []byte("package home\n\n// stale content of an earlier run\nvar staleMarker = 1\n"), 0o644)
@@ -135,6 +145,9 @@ func execScenario(env *hx.Env, files hx.Files, sc cliScenario, identical string)
 			_ = os.WriteFile(r.OutAbs, []byte(identical), 0o644)
 		case "stale-broken":
 			_ = os.WriteFile(r.OutAbs, []byte("package home\n\nfunc broken( {\n"), 0o644)
+		case "longer":
+			// the result of an earlier run on a longer setup file: the new content followed by more
+			_ = os.WriteFile(r.OutAbs, []byte(identical+"\nfunc leftOverFromALongerEarlierResult() int { return 1 }\n"), 0o644)
 		}
 	}
 	if b, err := os.ReadFile(r.OutAbs); err == nil {
@@ -169,6 +182,20 @@ func execScenario(env *hx.Env, files hx.Files, sc cliScenario, identical string)
 }
 
 func (r *cliRun) cleanup() { _ = os.RemoveAll(r.Root) }
+
+// otherLogs lists the *.log files the run created next to the output other than the output itself (used when the
+// documented log path coincides with the output path and the log therefore has no documented name).
+func (r *cliRun) otherLogs() []string {
+	created, _, _ := r.Before.Diff(r.After)
+	var out []string
+	for _, p := range created {
+		abs := filepath.Join(r.Root, filepath.FromSlash(p))
+		if strings.HasSuffix(p, ".log") && abs != r.OutAbs && filepath.Dir(abs) == filepath.Dir(r.OutAbs) {
+			out = append(out, p)
+		}
+	}
+	return out
+}
 
 func (r *cliRun) rel(abs string) string {
 	p, err := filepath.Rel(r.Root, abs)
